@@ -91,7 +91,26 @@ def run_sim(desc, out):
                     if a["op"] == "place":
                         a["client"] = rng.randrange(ncl)
                 actions += acts
-        strategies.append({"name": "S%d" % s, "markets": subs, "actions": actions})
+        st_ = {"name": "S%d" % s, "markets": subs, "actions": actions}
+        if rng.random() < 0.35:
+            st_["touch_contexts_on_close"] = True  # end-of-market bookkeeping reads the runner accounting inside process_closed_market
+        if ev and nm > 1 and rng.random() < 0.4:
+            # cross-market trading: a request on a market of the event the strategy is NOT subscribed to, made during an update of one it is
+            others = [mf.market_id for mf in mfs if mf.market_id not in subs and len(snaps[mf.market_id]) > 3]
+            if others and subs:
+                b_ = rng.choice(others)
+                a_ = rng.choice(subs)
+                sb = snaps[b_]
+                for _ in range(rng.randint(1, 2)):
+                    j = rng.randrange(1, len(sb) - 1)
+                    if sb[j]["status"] != "OPEN":
+                        continue
+                    ja = [i_ for i_, x in enumerate(snaps[a_]) if x["pt"] > sb[j]["pt"] and (j + 1 >= len(sb) or x["pt"] < sb[j + 1]["pt"]) and x["status"] != "CLOSED"]
+                    keys = [k_ for k_, r_ in sb[j]["runners"].items() if r_["status"] == "ACTIVE"]
+                    if ja and keys:
+                        k_ = rng.choice(keys)
+                        st_["actions"].append({"m": b_, "at": j, "via": [a_, ja[0]], "op": "place", "ref": "x%s_%d" % (b_[-2:], j), "sel": list(k_), "side": "BACK", "price": 1000.0, "size": 2.0, "persistence": "LAPSE", "client": rng.randrange(ncl)})
+        strategies.append(st_)
     case = {"seed": desc["seed"], "idx": desc["idx"], "markets": [{"id": mf.market_id, "text": mf.text()} for mf in mfs], "strategies": strategies, "clients": [{"username": "sim%d" % i} for i in range(ncl)]}
     if ev:
         case["event_processing"] = True
